@@ -77,13 +77,15 @@ class FlowProperties:
         ):
             raise ValueError("Need pvt_props to have: " + ", ".join(need_cols_short))
         if "alpha" in pvt_props:
-            m_scale_func = interp1d(pvt_props["pressure"], 1 / pvt_props["pseudopressure"])
+            # scale by the pseudopressure AT p_i (not by an interpolated reciprocal, which is
+            # infinite in the first interval of a table whose pseudopressure starts at zero)
+            m_scale_func = interp1d(pvt_props["pressure"], pvt_props["pseudopressure"])
             warnings.warn(
                 "warning: scaling pseudopressure, using user's hydraulic diffusivity",
                 RuntimeWarning,
                 stacklevel=2,
             )
-            m_scaling_factor = m_scale_func(p_i)
+            m_scaling_factor = 1 / m_scale_func(p_i)
         else:
             pseudopressure_scaling = (
                 1
